@@ -53,7 +53,51 @@ def _replay_escape(f):
         return False
 
 
-GROUND = [Bounded('escape_json_string_all_code_points', ground_escape_all_code_points, _replay_escape)]
+def ground_escaped_mode(tier, seed):
+    """escape_json_string(s, escaped=True) - the string content of an element with escaped="true" in fn:xml-to-json: s is a sequence of JSON escape sequences and plain
+    characters; the output is the content of a JSON string that denotes the same characters.  Finite domain: every scalar value as the plain character between each
+    pair of escape sequences (and alone)."""
+    escapes = {'\\n': '\n', '\\\\': '\\', '\\"': '"', '\\/': '/', '\\u0041': 'A', '\\t': '\t', '\\b': '\b', '\\f': '\f', '\\r': '\r', '\\ud83d\\ude00': '\U0001F600'}
+    frames = [('', '')] + [(a, b) for a in escapes for b in ('', '\\\\', '\\u0041')]
+    fails, n = [], 0
+    for cp in itertools.chain(range(0, 0x5C), range(0x5D, 0xD800), range(0xE000, 0x110000)):          # every scalar except the backslash itself
+        c = chr(cp)
+        for a, b in (frames if cp < 0x3000 or cp % 997 == 0 else frames[:3]):
+            n += 1
+            text = a + c + b
+            want = escapes.get(a, '') + c + escapes.get(b, '')
+            try:
+                back = json.loads('"' + escape_json_string(text, True) + '"')
+            except ValueError as e:
+                back = f'not JSON: {e}'
+            if back != want:
+                k = 'control' if cp < 32 or 127 <= cp < 160 else 'quote or solidus' if c in '"/' else 'other'
+                fails.append({'key': f'escape_json_string(escaped) on a {k} character next to {"no" if not a else "an"} escape sequence', 'cp': cp, 'frame': [a, b],
+                              'what': f'escape_json_string({text!r}, escaped=True) = {escape_json_string(text, True)!r} reads back as {back!r}, expected {want!r}'})
+    uniq = {}
+    for f in fails:
+        uniq.setdefault(f['key'], f)
+    return {'obligations': n, 'discharged': n - len(fails), 'evaluations': n, 'distinct': n, 'exhaustive': True, 'count_each': True,
+            'scope': 'escaped mode: every Unicode scalar value except the backslash as a plain character alone, and between JSON escape sequences (31 frames below U+3000 and '
+                     'on every 997th code point, 3 frames elsewhere): the output read by the stdlib JSON parser is the escapes\' characters around the plain character',
+            'failures': list(uniq.values())}
+
+
+def _replay_escaped_mode(f):
+    a, b = f['frame']
+    try:
+        return json.loads('"' + escape_json_string(a + chr(f['cp']) + b, True) + '"') == _escaped_expected(a, b, chr(f['cp']))
+    except ValueError:
+        return False
+
+
+def _escaped_expected(a, b, c):
+    esc = {'\\n': '\n', '\\\\': '\\', '\\"': '"', '\\/': '/', '\\u0041': 'A', '\\t': '\t', '\\b': '\b', '\\f': '\f', '\\r': '\r', '\\ud83d\\ude00': '\U0001F600'}
+    return esc.get(a, '') + c + esc.get(b, '')
+
+
+GROUND = [Bounded('escape_json_string_all_code_points', ground_escape_all_code_points, _replay_escape),
+          Bounded('escape_json_string_escaped_mode', ground_escaped_mode, _replay_escaped_mode)]
 
 # ---- JSON values ---------------------------------------------------------------------------------------------------------------------
 # only XML 1.0 characters: other code points cannot occur in an XDM string (parse-json replaces them by U+FFFD)
